@@ -25,10 +25,10 @@ from sim.trace import EventLog, canon, ddmin
 CASE_TIMEOUT = 240
 LEVEL = {"C14": "exploration", "C15": "fault_enumeration"}
 PLAN = {
-    "C14": {"quick": {"runs": 8000, "wall_cap": 110, "chunk": 40, "selftest": 8},
-            "thorough": {"runs": 300000, "wall_cap": 1500, "chunk": 100, "selftest": 40}},
-    "C15": {"quick": {"runs": 400, "wall_cap": 110, "chunk": 4, "selftest": 4},
-            "thorough": {"runs": 6000, "wall_cap": 1500, "chunk": 6, "selftest": 16}},
+    "C14": {"quick": {"runs": 60000, "wall_cap": 110, "chunk": 200, "selftest": 8},
+            "thorough": {"runs": 2000000, "wall_cap": 1700, "chunk": 500, "selftest": 40}},
+    "C15": {"quick": {"runs": 2000, "wall_cap": 110, "chunk": 10, "selftest": 4},
+            "thorough": {"runs": 20000, "wall_cap": 1700, "chunk": 10, "selftest": 16}},
 }
 RULE = {
     "C14": ("one evaluation = one seeded history of 3-14 steps (query via search or __call__, clean restart with new "
